@@ -47,7 +47,7 @@ theorem PidInv.posPid {t : Tree} (h : PidInv t) (hn : t.a.nextPage ≤ 2 ^ 64) :
 /-- `initRootNode` from an empty allocator: pages 1 (root) and 2 (the first leaf) -/
 theorem initRoot_pidInv {cfg : Cfg} (hc : CfgOk cfg) (a : Alloc) (h1 : a.nextPage = 1) (h2 : a.free = [])
     (ha : a.fault = none) : PidInv (initRoot cfg a) := by
-  obtain ⟨_, _, hcons⟩ := initRoot_spec hc a ha
+  obtain ⟨_, _, hcons, _⟩ := initRoot_spec hc a ha
   refine ⟨by have := hcons.1; omega, fun x => ?_⟩
   have := hcons.2 x
   rw [h1, h2] at this
@@ -61,7 +61,7 @@ theorem newTreeFile_pidInv {cfg : Cfg} (hc : CfgOk cfg) : PidInv (newTreeFile cf
 
 theorem set_pidInv {cfg : Cfg} (hc : CfgOk cfg) (t : Tree) (k : Key) (v : Val) (hinv : TreeInv cfg t)
     (hk : setKeyPanic k = false) (hp : PidInv t) : PidInv (set cfg t k v) :=
-  hp.step (set_spec hc t k v hinv hk).2.2
+  hp.step (set_spec hc t k v hinv hk).2.2.1
 
 theorem deleteBelow_pidInv {cfg : Cfg} (hc : CfgOk cfg) (t : Tree) (ts : Val) (hinv : TreeInv cfg t)
     (hp : PidInv t) (hn : t.a.nextPage ≤ 2 ^ 64) : PidInv (deleteBelow t ts) :=
@@ -69,13 +69,72 @@ theorem deleteBelow_pidInv {cfg : Cfg} (hc : CfgOk cfg) (t : Tree) (ts : Val) (h
 
 theorem iterateKV_pidInv {cfg : Cfg} (t : Tree) (f : Key → Val → Val) (hinv : TreeInv cfg t) (hp : PidInv t) :
     PidInv (iterateKV t f) := by
-  obtain ⟨_, _, _, h4⟩ := iterateKV_spec t hinv f
-  have ha : (iterateKV t f).a.nextPage = t.a.nextPage ∧ (iterateKV t f).a.free = t.a.free := by
-    have hf : ∀ (a : Alloc) (m : String), (a.fail m).nextPage = a.nextPage ∧ (a.fail m).free = a.free := by
-      intro a m; unfold Alloc.fail; split <;> exact ⟨rfl, rfl⟩
-    unfold iterateKV
-    constructor <;> (dsimp only; split <;> first | rfl | exact (hf _ _).1 | exact (hf _ _).2)
-  refine ⟨by rw [ha.1]; exact hp.1, fun x => ?_⟩
-  rw [h4, ha.1, ha.2]; exact hp.2 x
+  obtain ⟨_, _, _, h4, _, h6⟩ := iterateKV_spec t hinv f
+  refine ⟨by rw [h6]; exact hp.1, fun x => ?_⟩
+  rw [h4, h6]; exact hp.2 x
+
+/-! ## statistics and the root page -/
+
+/-- the maintained statistics agree with the structure (what `reinit` recounts) -/
+def StatsOk (t : Tree) : Prop :=
+  t.a.leafKeys = countLeafKeys t.root ∧ t.a.pagesFree = t.a.free.length
+
+theorem newNode_first (cfg : Cfg) (a : Alloc) (h1 : a.nextPage = 1) (h2 : a.free = []) : (newNode cfg a).1 = 1 := by
+  unfold newNode Alloc.freeHead
+  rw [h2]
+  have : newNodeUseFree (w 0) = false := by decide
+  simp only [this, Bool.false_eq_true, if_false, h1]
+
+theorem initRoot_stats {cfg : Cfg} (hc : CfgOk cfg) (a : Alloc) (h1 : a.nextPage = 1) (h2 : a.free = [])
+    (h3 : a.leafKeys = 0) (h4 : a.pagesFree = 0) (ha : a.fault = none) :
+    StatsOk (initRoot cfg a) ∧ (initRoot cfg a).root.pid = 1 := by
+  obtain ⟨_, _, hcons, hl, hcnt, hpid⟩ := initRoot_spec hc a ha
+  refine ⟨⟨by rw [hl, hcnt, h3]; rfl, ?_⟩, by rw [hpid]; exact newNode_first cfg a h1 h2⟩
+  have := hcons.3
+  rw [h2, h4] at this
+  simp at this; omega
+
+theorem reset_stats {cfg : Cfg} (hc : CfgOk cfg) (curSz : Nat) :
+    StatsOk (reset cfg curSz) ∧ (reset cfg curSz).root.pid = 1 :=
+  initRoot_stats hc _ rfl rfl rfl rfl rfl
+
+theorem newTreeFile_stats {cfg : Cfg} (hc : CfgOk cfg) :
+    StatsOk (newTreeFile cfg) ∧ (newTreeFile cfg).root.pid = 1 :=
+  initRoot_stats hc _ rfl rfl rfl rfl rfl
+
+theorem set_stats {cfg : Cfg} (hc : CfgOk cfg) (t : Tree) (k : Key) (v : Val) (hinv : TreeInv cfg t)
+    (hk : setKeyPanic k = false) (hs : StatsOk t) :
+    StatsOk (set cfg t k v) ∧ (set cfg t k v).root.pid = t.root.pid := by
+  obtain ⟨_, _, hcons, hlk, hpid⟩ := set_spec hc t k v hinv hk
+  refine ⟨⟨?_, ?_⟩, hpid⟩
+  · have := hs.1; omega
+  · have := hcons.3; have := hs.2; omega
+
+theorem deleteBelow_stats {cfg : Cfg} (hc : CfgOk cfg) (t : Tree) (ts : Val) (hinv : TreeInv cfg t)
+    (hp : ∀ p ∈ pids t.root, PosPid p) (hs : StatsOk t) :
+    StatsOk (deleteBelow t ts) ∧ (deleteBelow t ts).root.pid = t.root.pid := by
+  obtain ⟨_, _, _, hcons, _, hlk, hpid⟩ := deleteBelow_spec hc t hinv hp ts
+  refine ⟨⟨hlk, ?_⟩, hpid⟩
+  have := hcons.3; have := hs.2; omega
+
+theorem iterateKV_stats {cfg : Cfg} (t : Tree) (f : Key → Val → Val) (hinv : TreeInv cfg t) (hs : StatsOk t) :
+    StatsOk (iterateKV t f) ∧ (iterateKV t f).root.pid = t.root.pid := by
+  obtain ⟨hinv', _, _, h4, h5, h6⟩ := iterateKV_spec t hinv f
+  refine ⟨⟨by rw [h6, h5]; exact hs.1, by rw [h6]; exact hs.2⟩, ?_⟩
+  have h1 := pid_mem_pids (okNode_ne_null hinv'.ok)
+  have h2 := pid_mem_pids (okNode_ne_null hinv.ok)
+  have e1 : (pids (iterateKV t f).root).head? = some (iterateKV t f).root.pid := by
+    cases hr : (iterateKV t f).root with
+    | null => exact absurd hr (okNode_ne_null hinv'.ok)
+    | leaf p es => simp [pids, Node.pid]
+    | inner p es => simp [pids, Node.pid]
+  have e2 : (pids t.root).head? = some t.root.pid := by
+    cases hr : t.root with
+    | null => exact absurd hr (okNode_ne_null hinv.ok)
+    | leaf p es => simp [pids, Node.pid]
+    | inner p es => simp [pids, Node.pid]
+  rw [h4, e2] at e1
+  injection e1 with e1
+  exact e1.symm
 
 end RV.Tree
